@@ -69,6 +69,8 @@ var programs = []string{
 	`s := 0; for i := 0; i < 400; i++ { s += i % 256 }; [s, byte(7) + byte(250), 255 + 1]`,
 	`import lib; lib.twice(21) + lib.base`,
 	`x.N = 5; x.Ints([1]) + x.Get().A`,
+	// every registered codec, with a payload large enough for calls of different evaluations to overlap
+	"s := \"\"\nfor i := 0; i < 400; i++ {\ns = s + \"abcdefghij\" + string(i)\n}\nok := []\nfor _, c := range [\"base64\", \"base32\", \"hex\", \"gzip\", \"urlquery\"] {\nfor k := 0; k < 6; k++ {\nok.append(string(decode(encode(s, c), c)) == s)\n}\n}\n[len(s), ok, len(encode(s, \"gzip\")) > 0, decode(encode([[\"a\", \"b\"], [\"c\", \"d\"]], \"csv\"), \"csv\"), decode(encode({\"k\": [1, 2]}, \"json\"), \"json\")]",
 }
 
 // programs that import a module with module-level state through an importer SHARED by all evaluations
@@ -77,6 +79,8 @@ var sharedImportPrograms = []string{
 	"import state\nfor i := 0; i < 150; i++ {\nstate.bump(gid)\n}\n[state.count, len(state.log), state.log[0] == gid, state.log[149] == gid, state.bump(gid)]",
 	"from state import bump, peek\nfor i := 0; i < 150; i++ {\nbump(gid)\n}\n[peek()[0], len(peek()[1]), peek()[1][0] == gid, peek()[1][149] == gid]",
 	"import state as s1\nimport lib\ns1.bump(gid)\ns1.bump(lib.twice(gid))\n[s1.count, s1.log, lib.base]",
+	// clones of one VM (spawned goroutines) that import modules the spawner has and has not loaded yet
+	"import lib\nts := []\nfor i := 0; i < 4; i++ {\nts.append(spawn(func(k) {\nimport state\nimport lib\nstate.bump(k)\nreturn [lib.twice(k), state.count > 0]\n}, i))\n}\nrs := []\nfor _, t := range ts {\nrs.append(t.wait())\n}\nrs",
 }
 
 func goid() int {
@@ -142,7 +146,7 @@ func concWorker(req N) (resp N) {
 		if pi > len(programs) {
 			k := pi - len(programs) - 1
 			res, err := risor.Eval(ctx, sharedImportPrograms[k%len(sharedImportPrograms)], risor.WithGlobal("gid", gi+1),
-				risor.WithImporter(sharedImporters[k/len(sharedImportPrograms)]))
+				risor.WithImporter(sharedImporters[k/len(sharedImportPrograms)]), risor.WithConcurrency())
 			if err != nil {
 				return "ERR " + err.Error()
 			}
